@@ -213,8 +213,14 @@ pub fn record(output: &str) {
         let mut p = robots::geometry(robots::GEOMETRY_CLASSES[k % robots::GEOMETRY_CLASSES.len()], &mut r);
         p = robots::convention(p, r.gen_range(0..64), ["zero", "quarter", "random"][k % 3], &mut r);
         // the framed robot may itself stand on a (rotated and displaced) base and carry a tool
-        let inner_layers = match k % 4 { 1 => solver::stack_for("base", &mut r), 2 => solver::stack_for("base+tool", &mut r), _ => vec![] };
-        let robot = Robot::new(p, inner_layers, None);
+        // (or be framed already: a frame around a frame)
+        let inner_layers = match k % 4 { 1 => solver::stack_for("base", &mut r), 2 => solver::stack_for("base+tool", &mut r), 3 => solver::stack_for("frame", &mut r), _ => vec![] };
+        // one robot in five has joint limits that exclude some of the solutions (ranges of +-2 rad around another posture)
+        let limits = if k % 5 == 2 {
+            let c: Joints = std::array::from_fn(|_| r.gen_range(-1.0..1.0));
+            Some((std::array::from_fn(|i| c[i] - 2.0), std::array::from_fn(|i| c[i] + 2.0), 0.0))
+        } else { None };
+        let robot = Robot::new(p, inner_layers, limits);
         // a small displacement so that the moved pose stays reachable most of the time
         let mut fr = solver::random_iso(&mut r, 0.05);
         if k % 2 == 0 { fr.r = oracle::rot(['x', 'y', 'z'][k % 3], r.gen_range(-0.1..0.1)); }
